@@ -18,6 +18,20 @@ CLAIMED = {
    note="Trusted: Coq kernel, extraction+driver, harness, genzip.py reference builder. Decompressors and AES are outside the executed model here (compared up to metadata; the oracle still judges the bytes). The theorem is about the Crc32Reader model and make_reader's wrapping, tied by correspondence.",
    technique="Coq proof (induction over read schedules, arbitrary inner reader) + damage-enumeration correspondence",
    design="8 (C04)"),
+ "C05": dict(
+   text="Machine-checked Coq theorems over the reader model, in which every panic site of the Rust (unwrap, panic!, "
+        "unchecked arithmetic of debug builds, exhausted fuel of a bounded loop) is a Panic outcome: for EVERY byte string, "
+        "open never panics or runs out of fuel (end-record scans are structural over the input, directory and extra-field "
+        "loops are fuelled by the input length with a proved progress measure); opening any entry by index with or without "
+        "password never panics (the unchecked offset sum is unreachable for inputs < 2^63 bytes); reading it under any "
+        "buffer schedule never panics (AES finalisation invariant); pre-allocation is bounded by the input length.  "
+        "Correspondence and measurement: 57k hostile inputs (every truncation, byte substitutions in all structural "
+        "regions, multi-site damage, random bytes, single and pairwise structure-aware liars at 0/2^16/2^32/2^63/2^64) "
+        "with the model predicting each open/by_index outcome, and the harness running every reader entry point "
+        "(seekable, raw, by name, streaming, visitor, open-for-append) under a counting allocator and a clock.",
+   note="Trusted: Coq kernel, extraction+driver, harness (allocator, clock), genzip.py. Stream/visitor/append totality is exercised by the harness, not yet a theorem; heap and time are measured, not proved; panics inside codecs are outside the model.",
+   technique="Coq proof (no-panic by case analysis over the outcome monad, fuel sufficiency by progress measure) + hostile-input correspondence and resource measurement",
+   design="8 (C05)"),
  "C06": dict(
    text="Machine-checked Coq theorems for all names (unbounded): enclosed_name returns the name iff it is NUL-free, "
         "relative and never climbs above its start at any prefix of the component walk (iff against a declarative "
